@@ -45,7 +45,7 @@ def cases(tier, seed):
             continue  # DataFrames hold scalars only
         if far == "sampler" and (kind != "grid" or shuffle):
             continue
-        h = hash((desc, far, kind, n, mode, req, shuffle, rl)) % 7
+        h = int(core.jhash([desc, far, kind, n, mode, req, shuffle, rl]), 16) % 7
         if tier == "quick" and h not in (0, 3):
             continue
         pols = [None]
@@ -264,23 +264,26 @@ def check_case(case):
     kws = {}
     if case["mode"] != "default":
         kws[case["mode"]] = case["req"]
-    crop = farmer.Crop(name="k", parent_dir=d, **kws)
-    if far == "sampler":
-        crop.sow_samples(n, verbosity=0)
-    elif kind == "grid":
-        crop.sow_combos(dcombos, shuffle=case["shuffle"], verbosity=0)
-    elif kind == "mix":
-        crop.sow_combos(dcombos, cases=[dict(zip(fn_args, c)) for c in dcases],
-                        shuffle=case["shuffle"], verbosity=0)
-    else:
-        crop.sow_cases(fn_args, dcases, verbosity=0)
-    B = crop.num_batches
-    rl = case["reload"]
-    gcrop = xyz.Crop(name="k", parent_dir=d) if rl in (1, 3) else crop
-    for i in range(B, 0, -1):
-        grow(i, crop=gcrop, verbosity=0)
-    rcrop = xyz.Crop(name="k", parent_dir=d) if rl in (2, 3) else crop
+    B = 0
+    rcrop = None
     try:
+        crop = farmer.Crop(name="k", parent_dir=d, **kws)
+        if far == "sampler":
+            crop.sow_samples(n, verbosity=0)
+        elif kind == "grid":
+            crop.sow_combos(dcombos, shuffle=case["shuffle"], verbosity=0)
+        elif kind == "mix":
+            crop.sow_combos(dcombos,
+                            cases=[dict(zip(fn_args, c)) for c in dcases],
+                            shuffle=case["shuffle"], verbosity=0)
+        else:
+            crop.sow_cases(fn_args, dcases, verbosity=0)
+        B = crop.num_batches
+        rl = case["reload"]
+        gcrop = xyz.Crop(name="k", parent_dir=d) if rl in (1, 3) else crop
+        for i in range(B, 0, -1):
+            grow(i, crop=gcrop, verbosity=0)
+        rcrop = xyz.Crop(name="k", parent_dir=d) if rl in (2, 3) else crop
         if far == "runner-df":
             got = rcrop.reap_runner(rcrop.farmer, to_df=True)
         elif far.startswith("harv"):
